@@ -210,3 +210,133 @@ Definition iw_case_ok (c : iwcase) : bool :=
               Bool.eqb (iw_closed s) (wc_closed c)
   | None => false
   end.
+
+(* ====================================================================== *)
+(* 3. IBB: the table of expected sessions (ibb/listen.go Expect,           *)
+(*    ibb/ibb.go handleOpen), for one key (from, sid)                      *)
+(* ====================================================================== *)
+
+(* [own = true]: the code — an Expect call that gives up removes the entry
+   under its key only if it is still its own.  [own = false]: it removes
+   whatever is there (what must not be). *)
+
+Inductive eout := EConn | ECtxErr.
+Inductive epc :=
+| EWait               (* entry stored; in the select on ctx.Done / its channel *)
+| EGiveUp             (* took ctx.Done; before locking and removing its entry *)
+| ERet (o : eout).
+
+Record ecall := mkecall { e_canc : bool; e_pc : epc }.
+
+Inductive ohpc :=
+| OIdle
+| OOffer (j : nat)    (* open request: entry of call j taken and deleted; offering the connection to j *)
+| OAccept.            (* handing the connection to Accept on the unbuffered channel *)
+
+Record exstate := mkex {
+  ex_calls : list ecall;
+  ex_tab : option nat;       (* the entry under the key: index of the call that stored it *)
+  ex_h : ohpc;
+  ex_accepted : nat }.       (* connections handed to Accept *)
+
+Definition ex_init : exstate := mkex [] None OIdle 0.
+
+Inductive exlabel :=
+| EStart              (* Expect: cancels the call whose entry is there, stores its own *)
+| ECancel (i : nat)   (* the caller's context ends *)
+| ECtx (i : nat)      (* call i's select takes ctx.Done *)
+| ECleanup (i : nat)  (* lock; remove the entry (if own); return ctx.Err() *)
+| OArrive             (* open request for the key: lock, take and delete the entry, unlock *)
+| ODeliver (j : nat)  (* rendezvous: call j receives the connection *)
+| OGiveUp             (* the offer's other case: j's context is done; fall back to Accept *)
+| AAccept.            (* an Accept call takes the connection *)
+
+Definition ecall_step (s : exstate) (i : nat) (f : ecall -> option ecall) : option exstate :=
+  match nth_error (ex_calls s) i with
+  | Some c => match f c with
+              | Some c' => Some (mkex (upd (ex_calls s) i c') (ex_tab s) (ex_h s) (ex_accepted s))
+              | None => None
+              end
+  | None => None
+  end.
+
+Definition cancel_call (l : list ecall) (j : nat) : list ecall :=
+  match nth_error l j with
+  | Some c => upd l j (mkecall true (e_pc c))
+  | None => l
+  end.
+
+Definition ex_step (own : bool) (s : exstate) (l : exlabel) : option exstate :=
+  match l with
+  | EStart =>
+      let calls := match ex_tab s with Some j => cancel_call (ex_calls s) j | None => ex_calls s end in
+      Some (mkex (calls ++ [mkecall false EWait]) (Some (length (ex_calls s))) (ex_h s) (ex_accepted s))
+  | ECancel i => ecall_step s i (fun c => Some (mkecall true (e_pc c)))
+  | ECtx i => ecall_step s i (fun c => match e_pc c with
+                                       | EWait => if e_canc c then Some (mkecall true EGiveUp) else None
+                                       | _ => None
+                                       end)
+  | ECleanup i =>
+      match nth_error (ex_calls s) i with
+      | Some c =>
+          match e_pc c with
+          | EGiveUp =>
+              let tab := match ex_tab s with
+                         | Some j => if own then (if Nat.eqb j i then None else Some j) else None
+                         | None => None
+                         end in
+              Some (mkex (upd (ex_calls s) i (mkecall (e_canc c) (ERet ECtxErr))) tab (ex_h s) (ex_accepted s))
+          | _ => None
+          end
+      | None => None
+      end
+  | OArrive =>
+      match ex_h s with
+      | OIdle => match ex_tab s with
+                 | Some j => Some (mkex (ex_calls s) None (OOffer j) (ex_accepted s))
+                 | None => Some (mkex (ex_calls s) None OAccept (ex_accepted s))
+                 end
+      | _ => None
+      end
+  | ODeliver j =>
+      match ex_h s with
+      | OOffer j' =>
+          if Nat.eqb j j' then
+            match nth_error (ex_calls s) j with
+            | Some c => match e_pc c with
+                        | EWait => Some (mkex (upd (ex_calls s) j (mkecall (e_canc c) (ERet EConn))) (ex_tab s) OIdle (ex_accepted s))
+                        | _ => None
+                        end
+            | None => None
+            end
+          else None
+      | _ => None
+      end
+  | OGiveUp =>
+      match ex_h s with
+      | OOffer j =>
+          match nth_error (ex_calls s) j with
+          | Some c => if e_canc c then Some (mkex (ex_calls s) (ex_tab s) OAccept (ex_accepted s)) else None
+          | None => None
+          end
+      | _ => None
+      end
+  | AAccept =>
+      match ex_h s with
+      | OAccept => Some (mkex (ex_calls s) (ex_tab s) OIdle (S (ex_accepted s)))
+      | _ => None
+      end
+  end.
+
+Definition ecode (c : ecall) : nat :=
+  match e_pc c with ERet EConn => 1 | ERet ECtxErr => 2 | _ => 0 end.
+
+Record excase := mkexcase { xc_trace : list exlabel; xc_codes : list nat; xc_h : nat; xc_accepted : nat }.
+
+Definition ex_case_ok (c : excase) : bool :=
+  match run (ex_step true) ex_init (xc_trace c) with
+  | Some s => list_eqb Nat.eqb (map ecode (ex_calls s)) (xc_codes c) &&
+              Nat.eqb (match ex_h s with OIdle => 0 | OOffer _ => 1 | OAccept => 2 end) (xc_h c) &&
+              Nat.eqb (ex_accepted s) (xc_accepted c)
+  | None => false
+  end.
